@@ -373,6 +373,13 @@ fn run_cell(kind: &str, p: &str, ks: &Keys, seed: u64) -> Result<Vec<(String, &'
                     }
                 }
             }
+            // a transferable SECRET key that carries the subkey in public form (secret primary, public subkey packets): the binding is
+            // checked there as well
+            if kind == "subkey_binding" && (is_sig_field || matches!(p, "none" | "content")) {
+                let bound = if changed { other_sub.clone() } else { sub.clone() };
+                let cert = SignedSecretKey::new(sec.primary_key.clone(), sec.details.clone(), vec![pgp::composed::SignedPublicSubKey::new(bound, vec![sig2.clone()])], vec![]);
+                out.push(("SignedSecretKey::verify_bindings (subkey carried in public form)".into(), cls(cert.verify_bindings())));
+            }
             // certificate level: the perturbed self-signature inside the certificate
             if is_sig_field && matches!(kind, "certification" | "subkey_binding") {
                 let mut cert = pubk.clone();
